@@ -29,7 +29,7 @@ theorem notice_line (E : Env) (s : State) (hc : Clean s) (n : List Rune) (hn : n
     (hne : lineBufOf E (scanFrom E true s n) ≠ [])
     (hi : E.ignorable (joinLine (lineBufOf E (scanFrom E true s n))) = true) :
     scanFrom E true s (n ++ [nl]) =
-      { obuf := [], linebuf := [], line := s.line + 1, deferredEOL := false, deferredWord := false,
+      { obuf := [], linebuf := [], line := s.line + 1, deferredEOL := false, deferredLines := 0,
         doc := { s.doc with copyrights := s.doc.copyrights ++ [s.line] } } :=
   notice_line' E s hc n hn hd hh hne hi
 
